@@ -152,7 +152,15 @@ fn cell(idx: u64, rec: &mut Rec) {
     rec.cov(&format!("{}/{}/{}", kind, method, match want { None => "not-followed", Some(m) if m == method => "kept", _ => "to-GET" }));
     match (nf, want) {
         (Err(e), _) => rec.fail("C15/error", format!("{} {}: as_new_flow -> Err({:?})", method, status, e)),
-        (Ok(None), None) => {}
+        (Ok(None), None) => {
+            // asked again (with the other policy): the table has not changed
+            let other = if policy == RedirectAuthHeaders::Never { RedirectAuthHeaders::SameHost } else { RedirectAuthHeaders::Never };
+            rec.call();
+            match r.as_new_flow(other) {
+                Ok(None) => rec.cov("not-followed/asked-twice"),
+                again => rec.fail("C15/not-followed-answer-changed", format!("{} {}: not followed, asked again: {:?}", method, status, again.map(|o| o.map(|f| f.method().to_string())))),
+            }
+        }
         (Ok(None), Some(w)) => rec.fail("C15/not-followed", format!("{} {}: not followed, table says follow with {}", method, status, w)),
         (Ok(Some(f)), None) => rec.fail("C15/followed-despite-table", format!("{} {}: followed with {}, table says do not follow", method, status, f.method())),
         (Ok(Some(f)), Some(w)) => {
